@@ -345,7 +345,20 @@ def _consumer_ok(ctx: Ctx, fn, c: ast.Call) -> None:
         ctx.check(not aw, "C05.5", "open-list comprehension does not suspend", fn, A.stmt_of(c), "no await", "await inside the comprehension")
 
 
+def rule_closure_cannot_fail(ctx: Ctx) -> None:
+    """'One event per closure': between the state change and the event nothing may fail.  That is the COMMIT-LAST analysis of C07.1
+    (raise sets of everything reachable from cancel_order / _process_order / _order_closed), reported here as C05.4: an exception that
+    escapes after order.cancel() / add_fill() leaves a closed order without its closure event."""
+    from . import c07
+    ctx.rule_map = {"C07.1": "C05.4", "C07.2": "C05.4"}
+    try:
+        c07.rule_commit_last(ctx)
+    finally:
+        ctx.rule_map = {}
+
+
 def run(ctx: Ctx) -> None:
+    rule_closure_cannot_fail(ctx)
     rule_typestate(ctx)
     rule_fill_or_kill(ctx)
     rule_amounts(ctx)
